@@ -141,6 +141,14 @@ class Domain(object):
             return ("tv", v.n)
         return v
 
+    # "plain" identities: equal to kid()/vid() by value but never the object
+    # itself (the reference ledger must not see the harness's own references)
+    def pkid(self, k):
+        return _detach(self.kid(k))
+
+    def pvid(self, v):
+        return _detach(self.vid(v))
+
     # -- classes
     @property
     def mod(self):
@@ -164,6 +172,16 @@ class Domain(object):
                     leaf_, int_ = leaf, internal
                 c.max_leaf_size = leaf_
                 c.max_internal_size = int_
+
+
+def _detach(x):
+    if isinstance(x, str):
+        return ("s", "".join([x, ""]) if not x else x[:1] + x[1:])
+    if isinstance(x, tuple):
+        return ("t",) + tuple(_detach(y) for y in x)
+    if isinstance(x, bytes):
+        return ("b", x.hex())
+    return x
 
 
 def default_sizes(fam):
